@@ -295,6 +295,7 @@ def gen(rng, tier='quick', exact_only=False, label_kind=None, allow_affine=True,
                                         scale=float(rng.uniform(0.4, 1.2)), allow_fixed=False)
             pr2 = [pr2[0]]
             pr2[0]['center'] = list(zc2)
+            cen2[s] = np.array(zc2[:nz], float)    # random_set may move the centre (zero bounds)
             sup2.append(pr2)
         ph2 = rng.uniform(0.5, 1.5, Sn)
         ph2 = np.round(ph2 / ph2.sum(), 3)
